@@ -47,8 +47,10 @@ CLAIMS = {
          "section 6 C07", ""),
  "C08": ("Coq theorems: the entries of the transaction chain are processed to the end WHATEVER they contain (totality of apply_tx_block from the invariants hist_closed / "
          "bal_room, which every reachable state is proved to satisfy; exact residual failure codes with no hypothesis on the entries), the holding pass of a rated block cannot "
-         "fail outside the PEG-bank era (and inside it without PEG requests); invalid / repeated / recorded entries and garbage blocks are skipped and change nothing. Partial: "
-         "totality of the whole step_block (grading glue, insert_rates, payouts, burns) is not a theorem. Tie: adversarial chains (garbage on all three chains, truncated and length-compensated JSON, repeated hashes, 0..n ExtIDs) replayed by the real node; "
+         "fail outside the PEG-bank era (and inside it without PEG requests); invalid / repeated / recorded entries and garbage blocks are skipped and change nothing; for every "
+         "height of the live era (from 2.0.2 on, one-time adjustment heights included) the WHOLE block function returns Done under named hypotheses (oracles answer, well-formed "
+         "winning records, fresh synthetic hashes, room below 2^63), with the chain-level corollary, and every excluded case is witnessed Stuck in the model. Partial: heights "
+         "below 2.0.2 (closed eras) have no block-level totality theorem. Tie: adversarial chains (garbage on all three chains, truncated and length-compensated JSON, repeated hashes, 0..n ExtIDs) replayed by the real node; "
          "oracle: every block applies.", "section 6 C08", "Known finding: bank-era mixed batches wedge the block (closed era). "),
  "C09": ("Coq theorem over all chains with increasing heights and all sets of restart heights: dropping the in-memory cache anywhere never changes the replayed database; "
          "the averages a block uses are a function of the committed database alone. Tie: chain correspondence on chains with unrated blocks inside the averaging window, "
